@@ -25,4 +25,12 @@ PROPS = {
             'exhaustive': True, 'shards': lambda t: 1},
     'C17': {'rule': 'exhaustive static trace: one event per CLASS_MAPPING entry (18), key set, constants',
             'exhaustive': True, 'shards': lambda t: 1},
+    'C05': {'rule': 'grammar-side generated wire bytes (all 19 tags, unsorted keys, reserved bits, non-UTF-8 long strings, '
+                    'values the send side refuses); non-trivial = every event; distinct by byte string'},
+    'C07': {'rule': 'one CutSet event per valid frame: every strict prefix (strategic cuts for frames > 700 bytes) decoded; '
+                    'non-trivial = frame longer than 8 bytes'},
+    'C13': {'rule': 'Construct / SetThenMarshal events around every constraint of every constrained argument, CharBlock events '
+                    '(4096 code points each) over all of Unicode, crafted frames with refused values decoded'},
+    'C19': {'rule': 'one Observe event per object (constructed, after setattr, decoded) for all 64 classes + Basic.Properties'},
+    'C20': {'rule': 'FrameParts on buffers of length 0..16, every value of each header byte, Peek on encoded frames + tails'},
 }
